@@ -9,7 +9,10 @@ PROP_NAMES = ["a", "b", "c", "d", "a b", "a_b", "class", "x-y", "1st", "é", "id
 PATTERNS = ["^a", "b$", "^[a-c]+$", "x", ".*", "^$", "^.$", "[0-9]", "_"]
 FORMATS = ["uuid", "date-time", "unknown-fmt", "email"]
 STRINGS = ["", "a", "b", "ab", "abc", "x", "a b", "é", "1", "xyz", "aaaa",
-           "2020-01-01T00:00:00Z", "123e4567-e89b-12d3-a456-426614174000", "_", "a_b"]
+           "2020-01-01T00:00:00Z", "123e4567-e89b-12d3-a456-426614174000", "_", "a_b",
+           # valid spellings of formatted values that are not the canonical one
+           "123E4567-E89B-12D3-A456-426614174000", "{123e4567-e89b-12d3-a456-426614174000}", "urn:uuid:123e4567-e89b-12d3-a456-426614174000",
+           "123e4567e89b12d3a456426614174000", "2020-01-01t00:00:00z", "2020-01-01 00:00:00+00:00", "00000000-0000-0000-0000-000000000000"]
 INTS = [0, 1, -1, 2, 3, 4, 5, 7, 10, 100, -5, 6]
 FLOATS = [0.0, 1.0, 0.5, 1.5, 2.5, -0.5, 0.1, 0.3, 3.0, 1e3, 2.0]
 BIG = [2 ** 53, 2 ** 53 + 1, -(2 ** 53) - 1, 10 ** 30, 1e308, -1e308, 5e-324, 10 ** 400, 2 ** 1024]
@@ -456,6 +459,14 @@ def families(rng: random.Random):
     yield {"additionalItems": False}, arrs
     yield {"items": {"type": "integer"}, "additionalItems": False}, arrs
     yield {"type": "array", "contains": {"type": "integer"}}, arrs
+    # 5a. formats on typed and untyped strings, alone and nested, with every spelling of the formatted values
+    fstrings = [x for x in STRINGS if len(x) > 15] + ["", "a", "not-a-uuid"]
+    for fmt in FORMATS:
+        for base in ({"type": "string", "format": fmt}, {"format": fmt}, {"type": ["string", "null"], "format": fmt}):
+            yield base, fstrings + [None, 1]
+            yield {"type": "array", "items": base}, [[x] for x in fstrings] + [fstrings[:3]]
+            yield {"type": "object", "title": "F", "properties": {"id": base}}, [{"id": x} for x in fstrings] + [{}]
+            yield {"anyOf": [base, {"type": "integer"}]}, fstrings + [1]
     # 5b. boolean schemas (and the empty tuple) in every schema position
     for b in (False, True):
         for typed in ({}, {"type": "array"}):
